@@ -694,6 +694,13 @@ def _result(out, tag=None):
 
 
 def array_ufunc(ufunc, method, inputs, kwargs):
+    if ufunc is np.matmul and method == "__call__":
+        r = sym_matmul(inputs[0], inputs[1])
+        out = kwargs.get("out")
+        if out is not None:
+            out[0].view(np.ndarray)[...] = r
+            return out[0]
+        return r
     fn = UFUNC_TABLE.get(ufunc)
     if fn is None:
         if not any(has_sym(x) for x in inputs):
